@@ -260,6 +260,7 @@ const prelude = `(declare-sort Str 0)
 (declare-fun box_Slice (Int Slice) Iface)
 (declare-fun impl (Int Int) Bool)
 (declare-fun ptrlike (Int) Bool)
+(declare-fun slicelike (Int) Bool)
 (declare-fun uncomparable (Int) Bool)
 (declare-fun bitand (Int Int) Int)
 (declare-fun bitor (Int Int) Int)
@@ -394,7 +395,7 @@ func (e *Enc) Query(o *Obl) string {
 	if used["impl"] {
 		b.WriteString(e.prog.implAsserts())
 	}
-	if used["ptrlike"] || used["uncomparable"] {
+	if used["ptrlike"] || used["uncomparable"] || used["slicelike"] {
 		b.WriteString(e.prog.tagKindAsserts())
 	}
 	for _, a := range asserts {
